@@ -65,7 +65,7 @@ Section Ext.
   Proof.
     unfold resolve_group. destruct (Nat.ltb 3 _); [reflexivity|].
     destruct (split_on ch_colon g) as [|p1 [|p2 step]]; [reflexivity| rewrite resolve_index_ext; reflexivity |].
-    rewrite !render_part_ext. reflexivity.
+    unfold render_item. rewrite !render_part_ext. reflexivity.
   Qed.
 
   Lemma rewrite_f_ext fuel : forall s, rewrite_f has1 loc1 fuel s = rewrite_f has2 loc2 fuel s.
@@ -110,16 +110,14 @@ Section Spans.
   (* ---- NumPy-array spans (the fallback lookup; since fix a094259 a built-in int) ---- *)
   Theorem arr_has_is_c10 ls k l : span_has (SpanArr ls k) l = c10_has ct (Locate.SArr (map tr_label ls)) l.
   Proof.
-    unfold c10_has. destruct l; cbn [span_has Locate.span_contains Locate.arr_eq tr_label];
-      rewrite existsb_id_map; rewrite <- existsb_tr; reflexivity.
+    unfold c10_has. cbn [span_has Locate.span_contains]. unfold Locate.arr_eq.
+    rewrite existsb_id_map. rewrite <- existsb_tr. reflexivity.
   Qed.
 
   Theorem arr_locate_is_c10 ls l : span_locate (SpanArr ls PyInt) l = c10_locate gl (Locate.SArr (map tr_label ls)) l.
   Proof.
-    unfold c10_locate. rewrite LocateFacts.locate_SArr. unfold Locate.fallback.
-    assert (EA : Locate.arr_eq (map tr_label ls) (tr_label l)
-                 = Some (map (fun y => Locate.label_eqb y (tr_label l)) (map tr_label ls))) by (destruct l; reflexivity).
-    rewrite EA. pose proof (true_positions_length l ls 0) as HL. pose proof (true_positions_head l ls 0) as HH.
+    unfold c10_locate. rewrite LocateFacts.locate_SArr. unfold Locate.fallback, Locate.arr_eq.
+    pose proof (true_positions_length l ls 0) as HL. pose proof (true_positions_head l ls 0) as HH.
     cbn [span_locate].
     destruct (Locate.true_positions 0 _) as [|j [|k r]]; cbn [List.length hd_error] in HL, HH; rewrite <- HH; try rewrite <- HL; reflexivity.
   Qed.
